@@ -8,7 +8,7 @@ Driver for C07. Case line:
   ENV := <tid> S <name> <pkgPath> <n> FIELD*  |  <tid> A TY
   FIELD := F <name> <exported> <json> <validate> <query> <path> <header> <cookie> <default> <style> <explode> <doc> <example> <enum> <format> <typeIs> TY | E <tid>
   TY := P <kind> | T | Ptr TY | Sl TY | Ar TY | Mp <0|1> TY | N <tid>
-  OP := <method> <path> <summary> <description> <opID> (0 | 1 TY) <nresp> { <status> <statusText> (0 | 1 TY) }*
+  OP := <method> <path> <summary> <description> <opID> (0 | 1 TY) <nresp> { <status> <statusText> (0 | 1 TY) }* … <nopts> { <status> <nil> <nonzero> <n> <example name>* }*
         <ntags> <tag>* <deprecated> <nsec> { <scheme> <nscopes> <scope>* }* <nconsumes> <ct>* <nproduces> <ct>*
   OFF := CP (an operation constructor panicked: invalid path) | P (Generate panicked) | E <class> | D JSON
   ON  := CP | P | E <class> | S (same bytes as OFF's document) | X (a different document)
@@ -135,7 +135,10 @@ def pOp : M OpIn := do
   let security ← pList (do let sc ← pStr; let scopes ← pList pStr; pure (sc, scopes))
   let consumes ← pList pStr
   let produces ← pList pStr
-  pure { method, path, summary, description, opID, req, resps, tags, deprecated, security, consumes, produces }
+  let respOpts ← pList (do
+    let status ← pNat; let nilValue ← pBool; let nonZero ← pBool; let named ← pList pStr
+    pure ({ status, nilValue, nonZero, named } : RespOpt))
+  pure { method, path, summary, description, opID, req, resps, tags, deprecated, security, consumes, produces, respOpts }
 
 structure Input where
   v : Version
@@ -249,17 +252,21 @@ partial def pSchema : M Schema := do
     if acc.attrs.isEmpty then pure (.ref r) else fail "a $ref schema with sibling members"
   | none => pure (.node acc.attrs acc.items acc.props acc.addl)
 
-/-- `{<media type>: {"schema": …}}` — exactly one media type; returns its key and schema -/
-def pContent : M (Option (B × Schema)) := do
+/-- `{<media type>: {"schema": …, "example": …, "examples": {…}}}` — exactly one media type; returns its key, its
+    schema, whether it has the single `example`, and the keys of `examples` (in the order they are written) -/
+def pContent : M (Option (B × Schema × Bool × List B)) := do
   pObj none fun ct acc => do
     if acc.isSome then fail "two media types"
     else
-      let sch ← pObj (none : Option Schema) fun k a => do
-        if k = s "schema" then do let t ← pSchema; pure (some t)
-        else if k = s "example" ∨ k = s "examples" then do pSkip; pure a
+      let r ← pObj ((none : Option Schema), false, ([] : List B)) fun k a => do
+        if k = s "schema" then do let t ← pSchema; pure (some t, a.2)
+        else if k = s "example" then do pSkip; pure (a.1, true, a.2.2)
+        else if k = s "examples" then do
+          let names ← pObj ([] : List B) fun name ns => do pSkip; pure (ns ++ [name])
+          pure (a.1, a.2.1, names)
         else fail s!"unknown media type member {String.ofList k}"
-      match sch with
-      | some t => pure (some (ct, t))
+      match r.1 with
+      | some t => pure (some (ct, t, r.2.1, r.2.2))
       | none => fail "media type without schema"
 
 structure ParamAcc where
@@ -299,14 +306,15 @@ def insertRespD (x : Resp Schema) : List (Resp Schema) → List (Resp Schema) :=
 /-- responses, and the media type key of those that have content (all must use the same one) -/
 def pResponses : M (List (Resp Schema) × B) :=
   pObj ([], []) fun code acc => do
-    let r ← pObj (([] : B), (none : Option (B × Schema))) fun k a => do
+    let r ← pObj (([] : B), (none : Option (B × Schema × Bool × List B))) fun k a => do
       if k = s "description" then do let v ← pJStr; pure (v, a.2)
       else if k = s "content" then do let c ← pContent; pure (a.1, c)
       else fail s!"unknown response member {String.ofList k}"
     let ct ← match r.2 with
       | some (c, _) => if acc.2 = [] ∨ acc.2 = c then pure c else fail "responses with different media types"
       | none => pure acc.2
-    pure (insertResp { code := code, description := r.1, schema := r.2.map (·.2) } acc.1, ct)
+    pure (insertResp { code := code, description := r.1, schema := r.2.map (·.2.1),
+                       hasExample := (r.2.map (·.2.2.1)).getD false, exampleNames := (r.2.map (·.2.2.2)).getD [] } acc.1, ct)
 
 def pOperation : M (Operation Schema) := do
   let init : Operation Schema := { opId := [], summary := [], description := [], params := [], body := none, resps := [] }
@@ -332,7 +340,7 @@ def pOperation : M (Operation Schema) := do
     else if k = s "requestBody" then do
       let r ← pObj (false, (none : Option (B × Schema))) fun kk a => do
         if kk = s "required" then do let v ← pJBool; pure (v, a.2)
-        else if kk = s "content" then do let c ← pContent; pure (a.1, c)
+        else if kk = s "content" then do let c ← pContent; pure (a.1, c.map fun x => (x.1, x.2.1))
         else fail s!"unknown requestBody member {String.ofList kk}"
       if !r.1 then fail "requestBody not required"
       match r.2 with
@@ -498,6 +506,8 @@ def diffOperation (path : String) (m i : Operation Schema) : Option String :=
     (diffOptSchema (path ++ "/requestBody") m.body i.body).orElse fun _ =>
     diffList (path ++ "/responses") (fun p a b =>
       if a.code ≠ b.code ∨ a.description ≠ b.description then some s!"{p}: {String.ofList a.code} vs {String.ofList b.code}"
+      else if a.hasExample ≠ b.hasExample ∨ a.exampleNames ≠ b.exampleNames then
+        some s!"{p}: {String.ofList a.code} example/examples {a.hasExample}/{a.exampleNames.map String.ofList} vs {b.hasExample}/{b.exampleNames.map String.ofList}"
       else diffOptSchema (p ++ "/" ++ String.ofList a.code) a.schema b.schema) m.resps i.resps
 
 /-- first difference between the model's document and the implementation's, `none` if equal -/
